@@ -1423,12 +1423,17 @@ def oracle(case, obs):
             cfg = op[1]
             doc = None if before is None else _doc_of(before)
             entries = {k: from_py(v) for k, v in doc.items()} if isinstance(doc, dict) else {}
+            # (an injected OSError at the reading open is outside the quantifier: if a start-up survives it, nothing is
+            #  demanded about the values taken or not taken from the file it could not read)
+            read_faulted = bool(st['fired']) and st['fired_at'][1].startswith('open_r')
             for i, p in enumerate(params):
                 n = names[i]
                 got = st['mod']['vals'][n]
                 if n in cfg:
                     if not cv_eq(got, cfg[n]):
                         fail('precedence', f'op {idx}: {n} configured as {cfg[n]} but is {got}')
+                    continue
+                if read_faulted:
                     continue
                 if p['pers'] not in ('on', 'auto'):
                     if not cv_eq(got, p['default']):
